@@ -9,6 +9,12 @@ CLAIMED = {
  "C13": dict(cat="proof", tech="representation-invariant contracts, AST->VC symbolic execution with pointwise arrays, z3",
    text="Representation invariant rep(container) proved preserved (normal and exceptional exit, failure atomicity) by every public mutator of Pixel/Signal/Image/Phase/Photon and the Detector bucket setters, for ndarray inputs of symbolic shape (ndim 0..3) and symbolic dtype, DataArray, None, scalars and lists; equality specified on the empty/non-empty matrix. Induction over operation sequences follows from per-operation preservation.",
    note="Trusted: numpy in-place ufuncs keep shape/dtype and are all-or-nothing; abstract xr.DataArray (dtype/ndim/dims/sizes/coords preserved by copy/clip); ndim>3 behaves like 3.", ref="6 (C13)"),
+ "C11": dict(cat="proof", tech="contracts + AST->VC symbolic execution (LIA for fit ranges, pointwise reals for fitness formulas), z3",
+   text="check_fit_ranges / _check_out_fit_ranges / FitRange2D/3D.check executed symbolically for all fully specified 2-D/3-D range pairs: acceptance implies equal extents on every shared axis and target stops inside the target. The three built-in fitness functions (numba bodies) are executed pointwise: the summand at an arbitrary pixel equals the statement's formula and the result is the (nan)sum over the whole frame, divided by the degrees of freedom for the reduced chi-square.",
+   note="Trusted: nansum/sum as abstract reductions; real arithmetic for floats; numba executes the Python semantics. Not covered by contracts: pygmo's champion monotonicity (external C++), the xarray slicing/pairing in ModelFittingDataTree.fitness (boundary) — see DESIGN.md.", ref="6 (C11)"),
+ "C16": dict(cat="proof", tech="contracts + AST->VC; abstract-rounding (fl) arithmetic for the simple ADC per bit resolution; inductive loop invariants with recursive spec functions for the SAR converters, z3",
+   text="apply_simple_adc is executed symbolically at an arbitrary pixel for each of the 61 allowed resolutions with every float operation rounded by an abstract IEEE rounding function: range, zero at/below vmin, full scale at/above vmax, monotonicity, result dtype wide enough. apply_sar_adc and apply_sar_adc_with_noise (zero noise) are proved for a SYMBOLIC number of bits by loop invariants against a recursive specification of successive approximation: functional equality with the spec (hence the noisy variant with zero noise equals the plain one), range and monotonicity.",
+   note="Trusted: fl abstraction (no overflow/underflow/NaN), real arithmetic for SAR, 2**n recurrence facts, np.random.normal(scale=0)==loc, numpy pointwise contracts. Known finding: simple ADC at 54..64 bits (binary64 cannot hold 2^b-1).", ref="6 (C16)"),
 }
 PENDING_REASON = "check not built yet in this session (planned in DESIGN.md section 6); not claimed until its obligations are generated from the real code"
 def main():
